@@ -56,11 +56,20 @@ Wait for a channel potentially running on a `tokio` thread to process all items 
 If the current thread is a `tokio` thread then this call will be executed using [`tokio::task::block_in_place`] to avoid starving other work.
 */
 pub fn blocking_flush<T: Channel>(sender: &Sender<T>, timeout: Duration) -> bool {
+    if is_multi_thread_runtime() {
+        // If we're on a multi-threaded `tokio` runtime then tell it we're about to block
+        tokio::task::block_in_place(|| sync::blocking_flush(sender, timeout))
+    } else {
+        // If we're not on a `tokio` thread, or the runtime can't move
+        // other work off this thread, then run a regular blocking variant
+        sync::blocking_flush(sender, timeout)
+    }
+}
+
+fn is_multi_thread_runtime() -> bool {
     match tokio::runtime::Handle::try_current() {
-        // If we're on a `tokio` thread then await
-        Ok(handle) => handle.block_on(flush(sender, timeout)),
-        // If we're not on a `tokio` thread then run a regular blocking variant
-        Err(_) => sync::blocking_flush(sender, timeout),
+        Ok(handle) => handle.runtime_flavor() == tokio::runtime::RuntimeFlavor::MultiThread,
+        Err(_) => false,
     }
 }
 
@@ -87,11 +96,13 @@ pub fn blocking_send<T: Channel>(
     msg: T::Item,
     timeout: Duration,
 ) -> Result<(), BatchError<T::Item>> {
-    match tokio::runtime::Handle::try_current() {
-        // If we're on a `tokio` thread then await
-        Ok(handle) => handle.block_on(send(sender, msg, timeout)),
-        // If we're not on a `tokio` thread then run a regular blocking variant
-        Err(_) => sync::blocking_send(sender, msg, timeout),
+    if is_multi_thread_runtime() {
+        // If we're on a multi-threaded `tokio` runtime then tell it we're about to block
+        tokio::task::block_in_place(|| sync::blocking_send(sender, msg, timeout))
+    } else {
+        // If we're not on a `tokio` thread, or the runtime can't move
+        // other work off this thread, then run a regular blocking variant
+        sync::blocking_send(sender, msg, timeout)
     }
 }
 
